@@ -90,7 +90,7 @@ theorem leaveTry_single_shot (vm : VM) (tf : TryFrame) (rest : List TryFrame)
     (∀ p, tf.finallyPos = some p →
         (VM.step vm .leaveTry).pc = p ∧
         (VM.step vm .leaveTry).tries =
-          { tf with finallyRet := some (vm.pc + 1), finallyPos := none, catchPos := none } :: rest) ∧
+          { tf with finallyRet := some (vm.pc + 1), finallyPos := none, catchPos := none, result := vm.result } :: rest) ∧
     (tf.finallyPos = none →
         (VM.step vm .leaveTry).tries = rest ∧ (VM.step vm .leaveTry).pc = vm.pc + 1) := by
   constructor
